@@ -65,6 +65,10 @@ func (c *collector) withBuffer(fn func([]byte) error) error {
 type collectorID struct {
 	Remote  string
 	GroupID GroupID
+	// IsAsk and IsReply keep apart messages that carry the same GroupID: the reply to
+	// an ask echoes the asker's GroupID, which the replier may also be using for a
+	// message of its own to the same peer.
+	IsAsk, IsReply bool
 }
 
 type fragLayer struct {
@@ -85,8 +89,8 @@ func newFragLayer() *fragLayer {
 	return fl
 }
 
-func (fl *fragLayer) handlePart(remote p2p.Addr, gid GroupID, partIndex, partCount uint16, totalSize uint32, body []byte, fn func([]byte) error) error {
-	cid := collectorID{Remote: remote.String(), GroupID: gid}
+func (fl *fragLayer) handlePart(remote p2p.Addr, gid GroupID, isAsk, isReply bool, partIndex, partCount uint16, totalSize uint32, body []byte, fn func([]byte) error) error {
+	cid := collectorID{Remote: remote.String(), GroupID: gid, IsAsk: isAsk, IsReply: isReply}
 	if partCount < 2 && !disableFastPath {
 		return fn(body)
 	}
